@@ -9,7 +9,7 @@
 //! (`family_of`); each family's file documents its parameters and its ORACLE:
 //!   C06 retry     (retry.rs)      C07 page      (page.rs)     C10 break   (brk.rs)
 //!   C12 route     (route.rs) + tablet (tablet.rs)              C14 evict   (evict.rs)
-//!   C18 timestamp (timestamp.rs)  C20 keyspace  (keyspace.rs)
+//!   C18 timestamp (timestamp.rs) + tsconn (tsconn.rs, one hooked connection)   C20 keyspace (keyspace.rs)
 //! Output line: a short summary (never compared with a model). A case that cannot reach its precondition (session
 //! build / pool fill on an overloaded machine) prints `e2e-skip <why>` and judges nothing - never an oracle failure.
 //! Fixed cases: corpus/Cxx/e2e.case. `e2e smoke ...` and `e2e gen ...` are developer aids (never generated).
@@ -21,11 +21,13 @@ pub mod common;
 pub mod evict;
 pub mod keyspace;
 pub mod page;
+pub mod refresh;
 pub mod retry;
 pub mod route;
 pub mod smoke;
 pub mod tablet;
 pub mod timestamp;
+pub mod tsconn;
 
 /// Which family belongs to which property (a family is generated for that property only).
 pub fn family_of(pid: &str) -> Option<&'static str> {
@@ -36,6 +38,7 @@ pub fn family_of(pid: &str) -> Option<&'static str> {
         "C12" => Some("route"),
         "C14" => Some("evict"),
         "C18" => Some("timestamp"),
+        "C19" => Some("refresh"),
         "C20" => Some("keyspace"),
         _ => None,
     }
@@ -48,11 +51,15 @@ pub fn generate(pid: &str, rng: &mut Rng, tier: Tier, emit: &mut dyn FnMut(Strin
         Some("evict") => evict::generate(rng, tier, emit),
         Some("keyspace") => keyspace::generate(rng, tier, emit),
         Some("page") => page::generate(rng, tier, emit),
+        Some("refresh") => refresh::generate(rng, tier, emit),
         Some("route") => {
             route::generate(rng, tier, emit);
             tablet::generate(rng, tier, emit);
         }
-        Some("timestamp") => timestamp::generate(rng, tier, emit),
+        Some("timestamp") => {
+            timestamp::generate(rng, tier, emit);
+            tsconn::generate(rng, tier, emit);
+        }
         _ => {}
     }
 }
@@ -68,10 +75,12 @@ pub fn run(_pid: &str, case: &str, ctx: &mut Ctx) -> String {
         "evict" => evict::run(&words[2..], ctx),
         "keyspace" => keyspace::run(&words[2..], ctx),
         "page" => page::run(&words[2..], ctx),
+        "refresh" => refresh::run(&words[2..], ctx),
         "route" => route::run(&words[2..], ctx),
         "smoke" => smoke::run(&words[2..], ctx),
         "tablet" => tablet::run(&words[2..], ctx),
         "timestamp" => timestamp::run(&words[2..], ctx),
+        "tsconn" => tsconn::run(&words[2..], ctx),
         // developer aid: `e2e gen <Cxx> <quick|thorough> <seed>` prints that property's e2e cases joined by ';'
         "gen" if words.len() == 5 => {
             let mut out = Vec::new();
